@@ -44,7 +44,7 @@ NOTES.update({
 })
 NOTES.update({
  "w5-C11-m2": "missed at first: the reference encoder never used FLG(0); GS characters early in the message, encoded either through the Mixed table or as FLG(0), added",
- "w5-C11-m3": "NOT caught: the victim symbol is in the property's domain, but the trigger is a previous symbol carrying an ECI on the same Decoder instance; the reference encoder does not emit ECIs (the property lists the five code tables and binary shift)",
+ "w5-C11-m3": "missed until wave 13: the trigger is a previous symbol carrying an ECI on the same Decoder instance; a third of the instance-reuse histories now start with a symbol that announces another character set (FLG(n) + digits; unjudged itself, the property does not name ECIs), after which the conforming symbol must still decode exactly",
 })
 NOTES.update({
  "w6-C16-m1": "NOT caught: it needs a ragged bool map whose later row is longer than the first; ragged input is outside 'in-range arguments' (the unchanged tree panics on a ragged map whose later row is shorter)",
